@@ -270,6 +270,10 @@ func (s *Sub[C]) Run(ctx *Ctx, n int, gen func(i int) C) {
 		return
 	}
 	workers := runtime.GOMAXPROCS(0)
+	if os.Getenv("VERIF_SEQUENTIAL") != "" {
+		workers = 1
+		ctx.Note("evaluated sequentially (parallel evaluation produced unreproducible failures: the tree may not be safe for concurrent use, see C18)")
+	}
 	if workers > n {
 		workers = n
 	}
@@ -545,6 +549,27 @@ func (c *Ctx) Finish(verifDir string) {
 	}
 	if dropped > 0 {
 		c.Note(fmt.Sprintf("%d recorded failures did not reproduce in a fresh process (collateral of an earlier violating case in the same process) and were dropped", dropped))
+	}
+	if recorded > 0 && len(confirmed) == 0 && len(knownHits) == 0 && os.Getenv("VERIF_SEQUENTIAL") == "" {
+		// Failures seen while cases ran on parallel goroutines, none of which
+		// reproduces alone in a fresh process: the library may have become
+		// unsafe for concurrent use (that is property C18's business). Decide
+		// this property by evaluating every case sequentially instead.
+		fmt.Printf("note: %d failures under parallel evaluation did not reproduce in fresh processes; re-running the whole check sequentially\n", recorded)
+		exe, err := os.Executable()
+		if err != nil {
+			InternalError("%v", err)
+		}
+		cmd := exec.Command(exe, os.Args[1:]...)
+		cmd.Env = append(os.Environ(), "VERIF_SEQUENTIAL=1", "GOMAXPROCS=1")
+		cmd.Stdout, cmd.Stderr = os.Stdout, os.Stderr
+		err = cmd.Run()
+		if ee, ok := err.(*exec.ExitError); ok {
+			os.Exit(ee.ExitCode())
+		} else if err != nil {
+			InternalError("sequential re-run: %v", err)
+		}
+		os.Exit(0)
 	}
 	if recorded > 0 && len(confirmed) == 0 && len(knownHits) == 0 {
 		if !c.NoEvidence {
